@@ -29,7 +29,8 @@ def wholeTrace (c : Case) (inp : Nat) : String :=
   let a := rulesScanBlocks c.P c.variant cont 16384 c.set (mkIt c inp "-" false) ⟨0, 0⟩
   showTrace a.msgs a.rc
 
-def maskSched (n m : Nat) : List Act := (List.range n).map fun k => if m / 2 ^ k % 2 == 1 then .notReady else .ok
+def maskSched (n m : Nat) (st : Nat := 0) : List Act :=
+  (List.range n).map fun k => if m / 2 ^ k % 2 == 1 then .notReady else if st > 0 then .stall st else .ok
 
 /-- repeat the call while it answers "not ready" (at most `fuel` calls); returns messages, rc, calls, final state -/
 def repeatCall (c : Case) : Nat → Sc → It → World → List Msg → Nat → (List Msg × Err × Nat × Sc × It)
@@ -57,18 +58,20 @@ structure Acc where
   flags : List Char
   probes : List Char
 
-def masks (c : Case) (inp n : Nat) (probe : Option Nat := none) : String :=
+def masks (c : Case) (inp n : Nat) (probe : Option Nat := none) (st : Nat := 0) : String :=
   let it0 := mkIt c inp "-" false
   let want := probe.map (wholeTrace c)
   let step (acc : Acc) (m : Nat) : Acc :=
-    let sched := maskSched n m
+    -- with stalls, EVERY call that is not answered "not ready" takes `st` seconds, also those after the first `n`
+    let len := if st > 0 then 2 * n + 2 else n
+    let sched := maskSched len m st
     let it := { it0 with sched := sched }
     let (ms, rc, k, sc', itEnd) := repeatCall c (n + 2) acc.sc it ⟨0, 0⟩ [] 0
     let tr := showTrace ms rc
     let (idx, classes) := match acc.classes.findIdx? (· == tr) with
       | some i => (i, acc.classes)
       | none => (acc.classes.length, acc.classes ++ [tr])
-    let ev := evalNR sched it0.all.length (n - itEnd.sched.length)
+    let ev := evalNR sched it0.all.length (len - itEnd.sched.length)
     let sc1 := if rc = .blockNotReady then Sc.fresh c.set else sc'
     -- probe: the SAME scanner and the SAME iterator object (last_error as the interrupted scan left it) on the other input
     let (sc2, pc) := match probe, want with
@@ -95,7 +98,7 @@ def handle (line : String) : String :=
       | some e, _ => id ++ " " ++ entryPoints c (nat e) (((field rest "cbs").getD "-").splitOn ",")
       | none, some m =>
         (match m.splitOn ":" with
-         | [i, n] => id ++ " " ++ masks c (nat i) (nat n)
+         | [i, n] => id ++ " " ++ masks c (nat i) (nat n) none (nat ((field rest "st").getD "0"))
          | [i, n, wi] => id ++ " " ++ masks c (nat i) (nat n) ++ "!W=" ++ wholeTrace c (nat wi)
          | [i, n, wi, pi] => id ++ " " ++ masks c (nat i) (nat n) (some (nat pi)) ++ "!W=" ++ wholeTrace c (nat wi)
          | _ => id ++ " BADTASK")
